@@ -154,7 +154,9 @@ class Maximizer(FormulaStep):
         """
         val2 = eval_stack.pop()
         val1 = eval_stack.pop()
-        res = max(val1, val2)
+        # Python's max() ignores a NaN in second position, but a missing operand must
+        # make the result missing, regardless of its position.
+        res = math.nan if math.isnan(val1) or math.isnan(val2) else max(val1, val2)
         eval_stack.append(res)
 
 
@@ -177,7 +179,9 @@ class Minimizer(FormulaStep):
         """
         val2 = eval_stack.pop()
         val1 = eval_stack.pop()
-        res = min(val1, val2)
+        # Python's min() ignores a NaN in second position, but a missing operand must
+        # make the result missing, regardless of its position.
+        res = math.nan if math.isnan(val1) or math.isnan(val2) else min(val1, val2)
         eval_stack.append(res)
 
 
